@@ -13,7 +13,16 @@ ListedDevs == {"Dev_ComputedModelListenerNoColon"}
 
 (* trace validation of AttrsFold.tla: the real `attrs_done` event of the element carries the predicted fields *)
 Field(e, f) == IF f \in DOMAIN e THEN e[f] ELSE "<absent>"
+(* ... and of SlotFlags.tla: the real push / fill / pop events of the tree are the predicted ones *)
+StackEvents == {"enter_element", "enter_fragment", "fill_dynamic", "exit_children"}
+SameEvent(r, p) == r.ev = p.ev /\ \A f \in DOMAIN p : Field(r, f) = p[f]
+SlotDrift(ob) ==
+  IF ob.drv.term.k # "return" \/ "slotflags" \notin DOMAIN ob.abs \/ ob.abs.slotflags = <<>> THEN 0
+  ELSE LET real == SelectSeq(ob.drv.hooks, LAMBDA e : e.ev \in StackEvents)  p == ob.abs.slotflags IN
+       IF Len(real) = Len(p) /\ \A i \in 1..Len(p) : SameEvent(real[i], p[i]) THEN 0 ELSE 1
+
 Drift(ob) ==
+  IF SlotDrift(ob) # 0 THEN 1 ELSE
   IF ob.drv.term.k # "return" \/ "fold" \notin DOMAIN ob.abs \/ ob.abs.fold = <<>> THEN 0
   ELSE LET real == SelectSeq(ob.drv.hooks, LAMBDA e : e.ev = "attrs_done")  p == ob.abs.fold[1] IN
        IF Len(real) = 1 /\ \A f \in DOMAIN p : Field(real[1], f) = p[f] THEN 0 ELSE 1
